@@ -14,6 +14,7 @@ pub mod c15;
 pub mod c16a;
 pub mod c16b;
 pub mod c16c;
+pub mod proto;
 pub mod c17;
 pub mod c18;
 pub mod c19;
